@@ -4,7 +4,7 @@
    mask form, token formulas, copy tables).  The control flow of the vectorised kernels (nonzero-order combine, first-nonzero pivot, argmax front, strided map/state conversion)
    is tied to the model by the three-way correspondence check (numpy == torch == model on the same inputs).  Open findings of the port are listed in known_findings.json. *)
 From Coq Require Import String.
-From PC Require Import Gen.Kernels Gen.Copies Model.Base Model.Pauli Model.Heap Proofs.PauliFacts Proofs.IndexFacts Proofs.HeapFacts.
+From PC Require Import Gen.Kernels Gen.Copies Model.Base Model.Pauli Model.Heap Proofs.PauliFacts Proofs.IndexFacts Proofs.HeapFacts Proofs.TorchTwins.
 Open Scope Z_scope.
 
 Theorem C13_summands_agree : forall a b c d : bool,
